@@ -74,6 +74,14 @@ add("C11", "exploration",
     "Trusted: Python range/itertools orders as documented in streams.rs/BUILTINS.md, nlrun serialiser, Hypothesis. Length <= 5000.",
     "DESIGN.md §3 C11")
 
+add("C13", "exploration",
+    "property-based testing (Hypothesis) against an executable specification: one Python definition per sequence function",
+    "66 function forms x input kinds (list/vector/bytes/string/stream) x lengths 0..64 with repeats x callback families (incl. "
+    "non-commutative folds, tie-producing comparators, a throwing callback); sort/sort_on checked for stability through "
+    "position-tagged pairs, unique for first occurrences, kind preservation of filter-like functions, documented enumeration orders.",
+    "Trusted: the Python definitions written from BUILTINS.md, nlrun serialiser, Hypothesis. partition's result kind not asserted.",
+    "DESIGN.md §3 C13")
+
 NOT_APPLICABLE = {
 }
 
